@@ -40,8 +40,8 @@ let () =
              let t = ity_of (List.nth args 1) in
              let a = z_of_hex (List.nth args 2) and b = z_of_hex (List.nth args 3) in
              (match List.nth args 0 with
-              | "idiv" -> out_s (h_idiv base_mode t true a b) ^ " " ^ out_s (h_idiv base_mode t false a b)
-              | "imod" -> out_s (h_imod base_mode t true a b) ^ " " ^ out_s (h_imod base_mode t false a b)
+              | "idiv" -> out_s (idiv_helper base_mode t true a b) ^ " " ^ out_s (idiv_helper base_mode t false a b)
+              | "imod" -> out_s (imod_helper base_mode t true a b) ^ " " ^ out_s (imod_helper base_mode t false a b)
               | s -> failwith s)
            | "bounds" ->
              let t = ity_of (List.nth args 0) in
